@@ -88,6 +88,43 @@ def judge(run, texts, obs, model):
         elif (m[2] == '1') != (not d):
             run.disagree('strict', case, str(d), m[2])
 
+def two_writers(run, texts):
+    """the header of a container file carries the schema its writer was given, also when another writer of the same
+    process wrote a file before with a schema that differs only in what the canonical form drops (docs, aliases, defaults,
+    custom attributes): schema A first, then B, B's header is read back"""
+    import c12
+    rng = Rng(99)
+    pairs = {}
+    k = 0
+    for cid, txt in list(texts.items())[:260]:
+        try:
+            js = json.loads(txt)
+        except ValueError:
+            continue
+        if not isinstance(js, dict) or js.get('type') != 'record':
+            continue
+        r = rng.fork(k)
+        b = c12.irrelevant_edit(r, js)
+        if b == js:
+            continue
+        pairs['h%d' % k] = (txt, json.dumps(b)); k += 1
+    exe = fw.build_harness()
+    out = fw.run_lines(exe, ['%s (cheader2 %s %s)' % (cid, hx(a), hx(b)) for cid, (a, b) in pairs.items()])
+    for cid, (a, b) in pairs.items():
+        o = parse(out.get(cid, '(missing)'))
+        if tag(o) != 'obs':
+            continue
+        run.evaluations += 1
+        case = {'first_writer_schema': a[:1500], 'second_writer_schema': b[:1500]}
+        run.count('two-writers:' + str(tag(o[2])))
+        if tag(o[2]) == 'ok' and show(o[2][1]) != show(o[1]):
+            # (the null-namespace loss F19 shows on a single writer too; here only a schema that differs from B's own round trip counts)
+            single = fw.run_lines(exe, ['s (cheader2 %s %s)' % (hx(b), hx(b))]).get('s')
+            if single is None or show(parse(single)[2]) != show(o[2]):
+                run.fail('header-of-another-schema', 'after a writer for a canonically equal schema, the header of the second file carries %s, the writer was given %s' % (show(o[2][1])[:100], show(o[1])[:100]), case)
+        elif tag(o[2]) == 'ok':
+            run.nontrivial_case('2w' + b)
+
 def run(tier, seed):
     run_ = fw.Run(PROP, tier, seed)
     run_.proof = fw.proof_step(PROP, THEOREMS)
@@ -95,6 +132,7 @@ def run(tier, seed):
     obs = sj.run_impl('schema-rt', texts)
     model = sj.run_model(['%s (schema-json %s)' % (cid, show(o[1])) for cid, o in obs.items() if tag(o) == 'obs' and len(o) >= 7])
     judge(run_, texts, obs, model)
+    two_writers(run_, texts)
     return fw.finish(run_, 'theorems C10_* + differential check of parse / serialise / parse / serialise', RULE, search)
 
 def search(run_):
